@@ -29,14 +29,26 @@ type Guard struct {
 	Errs     []string
 	OnEvent  func(kind string, id int64, size int)
 	big      *Alloc // blocks larger than a slot fall back to the registry allocator
+	fast     bool   // no guard page between slots and no system call on Malloc: only use after free is detected
 }
 
 // NewGuard reserves nslots slots of dataPages data pages each (virtual memory only).
-func NewGuard(nslots, dataPages int) (*Guard, error) {
+func NewGuard(nslots, dataPages int) (*Guard, error) { return newGuard(nslots, dataPages, false) }
+
+// NewFastGuard is the variant for high allocation rates: the arena starts accessible, slots have no guard page, Malloc
+// makes no system call; Free still makes the block's pages inaccessible for ever, so a use after free faults.
+func NewFastGuard(nslots, dataPages int) (*Guard, error) { return newGuard(nslots, dataPages, true) }
+
+func newGuard(nslots, dataPages int, fast bool) (*Guard, error) {
 	pg := uintptr(os.Getpagesize())
-	g := &Guard{page: pg, dataPg: uintptr(dataPages), nslots: uintptr(nslots), big: NewAlloc()}
+	g := &Guard{page: pg, dataPg: uintptr(dataPages), nslots: uintptr(nslots), big: NewAlloc(), fast: fast}
 	g.SlotSize = (g.dataPg + 1) * pg
-	mem, err := syscall.Mmap(-1, 0, int(g.SlotSize*g.nslots), syscall.PROT_NONE, syscall.MAP_ANON|syscall.MAP_PRIVATE|syscall.MAP_NORESERVE)
+	prot := syscall.PROT_NONE
+	if fast {
+		g.SlotSize = g.dataPg * pg
+		prot = syscall.PROT_READ | syscall.PROT_WRITE
+	}
+	mem, err := syscall.Mmap(-1, 0, int(g.SlotSize*g.nslots), prot, syscall.MAP_ANON|syscall.MAP_PRIVATE|syscall.MAP_NORESERVE)
 	if err != nil {
 		return nil, err
 	}
@@ -70,8 +82,10 @@ func (g *Guard) Malloc(n int) unsafe.Pointer {
 	g.next++
 	off := i * g.SlotSize
 	data := g.arena[off : off+g.dataPg*g.page]
-	if err := syscall.Mprotect(data, syscall.PROT_READ|syscall.PROT_WRITE); err != nil {
-		panic("mprotect: " + err.Error())
+	if !g.fast {
+		if err := syscall.Mprotect(data, syscall.PROT_READ|syscall.PROT_WRITE); err != nil {
+			panic("mprotect: " + err.Error())
+		}
 	}
 	g.state[i] = 1
 	g.sizes[i] = int32(n)
@@ -134,4 +148,15 @@ func (g *Guard) Counts() (mallocs, frees int64, live int, errs []string) {
 // Describe explains a fault address for the parent process.
 func (g *Guard) Describe() string {
 	return fmt.Sprintf("GUARD base=%d slot=%d datapages=%d page=%d nslots=%d", g.Base, g.SlotSize, g.dataPg, g.page, g.nslots)
+}
+
+// IsDead reports whether p points into a block that has been freed.
+func (g *Guard) IsDead(p unsafe.Pointer) bool {
+	i, ok := g.slotOf(p)
+	if !ok {
+		return g.big.IsDead(p)
+	}
+	g.mu.Lock()
+	defer g.mu.Unlock()
+	return g.state[i] == 2
 }
